@@ -18,7 +18,7 @@ from harness.core import compare_batch, err_name, run_oracle_cases
 
 PROP = 'C16'
 PROOF_MODULES = ['Ladybug.Props.C16']
-GREP_MODULES = ['Ladybug.Model.DesignDay', 'Ladybug.Gen.DesignDayTables', 'Ladybug.Proofs.C16Lemmas',
+GREP_MODULES = ['Ladybug.Model.DesignDay', 'Ladybug.Gen.DesignDayTables', 'Ladybug.Proofs.C16Lemmas', 'Ladybug.Proofs.C16Idf',
                 'Ladybug.Drv.C16', 'Ladybug.Model.Psychro', 'Ladybug.Model.Cal', 'Ladybug.Py',
                 'Ladybug.DrvCore', 'Ladybug.Transc', 'Ladybug.RealInst']
 RULE = ('correspondence: design days built from plain numbers (every date of the year for the date ops, '
@@ -33,7 +33,8 @@ RULE = ('correspondence: design days built from plain numbers (every date of the
 TRUSTED_BASE = [
     'translator tools/extract/designday_tables.py: copies HOURLY_MULTIPLIERS, the key lists, the ep_vals '
     'layout of to_idf, the ep_fields indices/guards of from_idf and the day offset of start_moy',
-    'numbers of the IDF layer are opaque tokens: float(str(x)) == x for Python floats/ints is assumed '
+    'fields of the IDF layer are abstract tokens: the laws float(str(x)) == x, int(str(n)) == n, '
+    "'Yes'.lower() == 'yes', str(x) != '' (structure TokLaws) are assumed of Python's str/float/int "
     '(exercised by the to_idf/from_idf correspondence on random floats)',
     'character level of the IDF text (padding, comment stripping by regex, split/strip, the DDY object regex) '
     'is an executable model tied by correspondence only; theorems are at field-list level',
@@ -1205,7 +1206,7 @@ LEVEL_TEXT = ('Machine-checked Lean 4 theorems over an executable model of desig
               'hourly date-time and every date-time the sky condition evaluates (timestep 1 and sub-hourly, with '
               'and without daylight saving) lies on the stated date, for every date of the year incl. 31 Dec '
               '(after the repair (doy - 1) * 1440; the day offset is regenerated from the source and the theorem '
-              'breaks on the unrepaired tree); from_idf(to_idf(d)) = d at field-list level for 4 humidity types x '
+              'breaks on the unrepaired tree); from_idf(to_idf(d)) = d at field level (abstract tokens obeying float(str(x)) == x etc.; value-level theorem C16_idf_roundtrip_value plus the slot-level layout theorem) for 4 humidity types x '
               '{ASHRAEClearSky, ASHRAETau, ASHRAETau2017} x rain/snow/daylight-saving flags with numbers as opaque '
               'tokens, lifted to DDY files as lists; from_ashrae_dict_* carry the header values. The IDF field '
               'layout used by the model is regenerated from to_idf/from_idf on every run. Radiation values, '
